@@ -59,6 +59,9 @@ def entry_state(self):
         st.env[n] = self.declare_param(n, t, st)
     for n, t in self.c.ghost.items():
         st.ghost[n] = self.declare_param(n, t, st)
+    for extra in (self.fn.args.vararg, self.fn.args.kwarg):
+        if extra is not None and extra.arg not in st.env:
+            st.env[extra.arg] = Unknown("*args/**kwargs")
     return st
 
 
